@@ -87,6 +87,13 @@ def generate(rng, tier):
         cases.append({"lines": [l.encode().hex() for l in lines], "pattern": pat.encode().hex(), "invert": rng.random() < 0.3,
                       "before": rng.choice([0, 0, 1, 2]), "after": rng.choice([0, 0, 1]), "max": rng.choice([0, 0, 1, 2]),
                       "via": "api" if i % 8 else "cli", "nonl": True})
+    # white space inside the regex (runs of blanks, leading / trailing blanks, a TAB): the command line goes through the
+    # client's encoding and the server's re-tokenisation
+    ws_lines = ["a b", "a  b", "a   b", "a\tb", "foo", "foo ", " foo", "o b", "o  b", "x", ""]
+    for i, pat in enumerate(["a  b", "a   b", "o ", " foo", "\t", "a\tb", "  ", "o  b", "foo $", "^ "] * (1 if tier == "quick" else 6)):
+        lines = [rng.choice(ws_lines) for _ in range(rng.choice([6, 10]))] + ws_lines[:4]
+        cases.append({"lines": [l.encode().hex() for l in lines], "pattern": pat.encode().hex(), "invert": i % 3 == 2,
+                      "before": rng.choice([0, 0, 1]), "after": rng.choice([0, 0, 1]), "max": 0, "via": "cli"})
     ncli = 40 if tier == "quick" else 400
     for i in range(ncli):
         L = rng.choice([1, 3, 6, 10, 25])
